@@ -165,7 +165,21 @@ impl Subject {
         let (storage, dir): (Arc<dyn Storage>, Option<ScratchDir>) = match kind.backend {
             Backend::Mem => (Arc::new(InMemoryStorage::new()), None),
             Backend::Sqlite => {
-                let d = ScratchDir::new("db");
+                // every third SQLite subject keeps its data in a directory whose name contains
+                // characters that mean something in URIs, shells or SQL (legal file names all)
+                static N: std::sync::atomic::AtomicUsize = std::sync::atomic::AtomicUsize::new(0);
+                const NAMES: [&str; 6] = ["sync#1", "really?", "backup%41", "my data", "d\u{e4}ta'\"x", "a;b&c=d"];
+                let n = N.fetch_add(1, std::sync::atomic::Ordering::SeqCst);
+                let d = if n % 3 == 2 {
+                    let outer = ScratchDir::new("db");
+                    let nested = outer.path().join(NAMES[(n / 3) % NAMES.len()]);
+                    std::fs::create_dir_all(&nested)?;
+                    // (the outer directory goes with the scratch base at the end of the run)
+                    std::mem::forget(outer);
+                    ScratchDir(nested)
+                } else {
+                    ScratchDir::new("db")
+                };
                 let s = SqliteStorage::new(d.path())?;
                 (Arc::new(s), Some(d))
             }
